@@ -207,6 +207,34 @@ func (v *c20Visitor) Visit(vc VisitorContext, n jet.Node) {
 	vc.Visit(n)
 }
 
+// H_C20_mutated: every fragment with one byte replaced by an arbitrary byte at every offset
+// (quick: the first 12 fragments; thorough: all, and also nested in a range body):
+// whatever the parser accepts, Walk handles - same assertions as H_C20_walk.
+//
+//gosym:reach walked,rejected
+//gosym:opts maxpaths=600000
+func H_C20_mutated() {
+	nf := 12
+	if vfTier() == 1 {
+		nf = len(c20Fragments)
+	}
+	f := c20Fragments[ndChoice("frag", nf)]
+	k := ndChoice("at", len(f))
+	src := f[:k] + ndString("m", 1) + f[k+1:]
+	if vfTier() == 1 && ndChoice("nest", 2) == 1 {
+		src = `{{ range r }}` + src + `{{ end }}`
+	}
+	l := jet.NewInMemLoader()
+	l.Set("/x.jet", "x")
+	set := jet.NewSet(l)
+	t, err := set.Parse("/t.jet", src)
+	if err != nil {
+		vfReach("rejected")
+		return
+	}
+	c20Check(t)
+}
+
 // H_C20_walk: for every pair of fragments (symbolic choice), concatenated and also nested
 // (the second inside an if body inside a range body), Walk with a visitor that descends
 // through VisitorContext.Visit: no panic, terminates, never hands the visitor a nil node,
@@ -217,20 +245,32 @@ func (v *c20Visitor) Visit(vc VisitorContext, n jet.Node) {
 func H_C20_walk() {
 	a := ndChoice("a", len(c20Fragments))
 	b := ndChoice("b", len(c20Fragments))
-	nest := ndChoice("nest", 2)
+	nest := ndChoice("nest", 2+2*vfTier())
 	src := c20Fragments[a] + c20Fragments[b]
-	if nest == 1 {
+	switch nest {
+	case 1:
 		src = c20Fragments[a] + `{{ range r }}{{ if c }}` + c20Fragments[b] + `{{ end }}{{ end }}`
+	case 2: // thorough: inside a block body and its default content
+		src = `{{ block z(p=1) ctx }}` + c20Fragments[a] + `{{ content }}` + c20Fragments[b] + `{{ end }}`
+	case 3: // thorough: inside try and catch bodies, below an else branch
+		src = `{{ if c }}x{{ else }}{{ try }}` + c20Fragments[a] + `{{ catch e }}` + c20Fragments[b] + `{{ end }}{{ end }}`
 	}
 	l := jet.NewInMemLoader()
 	l.Set("/x.jet", "x")
 	set := jet.NewSet(l)
 	t, err := set.Parse("/t.jet", src)
 	if err != nil {
-		// the last five fragments are structural mistakes the parser may reject
-		vfAssert(a >= len(c20Fragments)-5 || b >= len(c20Fragments)-5, "fragment parses")
+		// the last five fragments are structural mistakes the parser may reject; a block
+		// definition inside a block body, or a {{content}} fragment in a position where the
+		// enclosing construct does not take one, likewise
+		vfAssert(nest >= 2 || a >= len(c20Fragments)-5 || b >= len(c20Fragments)-5, "fragment parses")
 		return
 	}
+	c20Check(t)
+}
+
+// c20Check: Walk over a parsed template against the reference traversal.
+func c20Check(t *jet.Template) {
 	v := &c20Visitor{budget: 5000}
 	Walk(t, v)
 	vfReach("walked")
